@@ -1,10 +1,15 @@
-"""C18 - see lib/srvprop.py (family table, generators) and spec/H2Server.tla, spec/H2ServerTrace.tla."""
-import srvprop
+"""C18 - server half: lib/srvprop.py + spec/H2Server.tla + spec/H2ServerTrace.tla;
+client half: lib/cliprop.py + spec/H2ClientTrace.tla."""
+import srvprop, cliprop
 
 
 def run(ctx):
     srvprop.run(ctx, 'C18')
+    cliprop.run(ctx, 'C18', id_offset=1000000)
 
 
 def replay(ctx, finding):
-    srvprop.replay(ctx, 'C18', finding)
+    if finding.get('kind') == 'cli':
+        cliprop.replay(ctx, 'C18', finding)
+    else:
+        srvprop.replay(ctx, 'C18', finding)
